@@ -307,7 +307,8 @@ def precision_run_backward(scn: dict, rng: random.Random) -> list[str]:
     T = Built(scn["prog"], dtype=torch.float64, shapes=B.shapes, real=B.real, perturb=eps, layouts=B.layouts)
     tensors = [int(t) for t in scn["tensors"]]
     inputs = [int(l) for l in scn["inputs"]]
-    w = torch.tensor([float(v) + 2.0 ** -28 * (1 + i % 2) for i, v in enumerate(scn["w"])], dtype=torch.float64)
+    w_ref = torch.tensor([float(v) + 2.0 ** -28 * (1 + i % 2) for i, v in enumerate(scn["w"])], dtype=torch.float64)
+    w = w_ref.clone()            # the aggregator gets a tensor of its own: the twin must not see what the call may do to it
     k = scn["k"]
     try:
         backward([B.node(t) for t in tensors], Constant(w), inputs=[B.node(l) for l in inputs],
@@ -317,7 +318,7 @@ def precision_run_backward(scn: dict, rng: random.Random) -> list[str]:
     gts, off = [], 0
     for t in tensors:
         n = T.node(t).numel()
-        gts.append(w[off:off + n].reshape(T.node(t).shape))
+        gts.append(w_ref[off:off + n].reshape(T.node(t).shape))
         off += n
     torch.autograd.backward([T.node(t) for t in tensors], grad_tensors=gts, inputs=[T.node(l) for l in inputs])
     out = []
